@@ -156,6 +156,23 @@ def history(draw, border=False):
             pos_ = draw(st.integers(0, len(parts)))
             parts[pos_:pos_] = two
     cfg["nghost"] = nghost
+    # energy tracking switches the open boundary to its other removal path (sorted removal, needs no tree)
+    tree_any = gravity == "tree" or collision in ("tree", "linetree")
+    cfg["track_energy_offset"] = draw(st.sampled_from([0, 1])) if not (boundary == "open" and tree_any) else 0
+    if boundary == "open" and draw(st.booleans()):
+        # 2-4 index-adjacent particles that leave through the same face in the same step
+        ax = draw(st.integers(0, 2))
+        sgn = draw(st.sampled_from([-1.0, 1.0]))
+        grp = []
+        for k in range(draw(st.sampled_from([2, 2, 3, 4]))):
+            q = draw(particle(L, L0, dt, 600 + k, False, radius))
+            gap = draw(S.floats(0.01, 0.2)) * L0
+            q["xyz"[ax]] = sgn * (L[ax] / 2 - gap)
+            # crosses the face in the first (mid-step check) or in the second half of the step
+            q["v" + "xyz"[ax]] = sgn * (dt / abs(dt)) * gap / abs(dt) * draw(st.sampled_from([1.3, 3.0, 1.3, 8.0]))
+            grp.append(q)
+        pos_ = draw(st.integers(0, len(parts)))
+        parts[pos_:pos_] = grp
     if draw(st.integers(0, 2)) == 0 and parts:
         # an off-centre heavy particle: a shift to the centre-of-mass frame then pushes the others across box faces
         hv = parts[draw(st.integers(0, len(parts) - 1))]
@@ -298,6 +315,7 @@ def new_sim(case):
     if cfg["collision"] != "none":
         sim.collision_resolve = "merge"
     sim.collision_resolve_keep_sorted = 0
+    sim.track_energy_offset = cfg.get("track_energy_offset", 0)
     sim.dt = cfg["dt"]
     sim.t = cfg["t0"]
     sim.rand_seed = cfg["rand_seed"]
